@@ -107,14 +107,14 @@ fn field_item(rep: &mut Report, rng: &mut Rng, args: &Args, kind: &str, ad: &dyn
             values.push(v);
         }
     }
-    let nrand = args.pick(400, 12000) / fi.dim.min(6);
+    let nrand = bud(args, 400, 12000) / fi.dim.min(6);
     for _ in 0..nrand {
         values.push(gen_flat(rng, &fi, &st, rep));
     }
     let exhaustive_values = fi.dim == 1 && fi.p < oracle::u(300);
     if exhaustive_values {
         let p = fi.p.to_u64_digits().first().copied().unwrap_or(0);
-        values = (0..p).map(|x| vec![oracle::u(x)]).collect();
+        values = (0..p).step_by(enum_step(p * 4) as usize).map(|x| vec![oracle::u(x)]).collect();
         rep.exhaustive(&format!("all elements of {} through every mode and flag type", fi.name));
     }
     for v in &values {
@@ -194,15 +194,16 @@ fn field_item(rep: &mut Report, rng: &mut Rng, args: &Args, kind: &str, ad: &dyn
         if size <= 2 {
             rep.exhaustive(&format!("all {}-byte strings for {} with {}", size, fi.name, kind_f.name()));
             rep.class("exhaustive: all byte strings of a tiny field");
-            for n in 0..(1u32 << (8 * size)) {
-                let b = n.to_le_bytes()[..size].to_vec();
+            let total = 1u64 << (8 * size);
+            for n in (0..total).step_by(enum_step(total) as usize) {
+                let b = (n as u32).to_le_bytes()[..size].to_vec();
                 field_bytes_case(rep, Prop::C09, kind, ad, kind_f, &b, false, true);
                 if kind_f == FlagKind::Empty {
                     field_bytes_case(rep, Prop::C09, kind, ad, kind_f, &b, true, true);
                 }
             }
         } else {
-            for b in field_hostile_strings(rng, &fi, kind_f, &st, args.pick(500, 20000) / fi.dim.min(6)) {
+            for b in field_hostile_strings(rng, &fi, kind_f, &st, bud(args, 500, 20000) / fi.dim.min(6)) {
                 field_bytes_case(rep, Prop::C09, kind, ad, kind_f, &b, false, false);
                 if kind_f == FlagKind::Empty {
                     field_bytes_case(rep, Prop::C09, kind, ad, kind_f, &b, true, false);
@@ -420,7 +421,7 @@ fn curve_item(rep: &mut Report, rng: &mut Rng, args: &Args, ad: &dyn CAd) {
     pts.push((neg_pt(ad, &g), true));
     // 753-bit curves over extension fields are slow in the harness double-and-add: scale the budget
     let weight = (fi.bits / 64 + 1) * fi.dim;
-    let n = (args.pick(1600, 48000) / weight).max(4);
+    let n = (bud(args, 1600, 48000) / weight).max(4);
     for _ in 0..n {
         let k = rand_scalar(rng, &ci.r);
         let Ok(p) = ad.mul(&g, &k) else {
@@ -470,7 +471,7 @@ fn toy_item(rep: &mut Report, rng: &mut Rng, _args: &Args, ad: &dyn CAd) {
     if t.sw {
         point_case(rep, rng, ad, &None, true, true, 1);
     }
-    for (x, y) in &t.points {
+    for (x, y) in t.points.iter().step_by(enum_step(t.points.len() as u64 * 16) as usize) {
         let pt: Pt = Some((toy::e_to_flat(*x, t.deg), toy::e_to_flat(*y, t.deg)));
         let inside = t.subgroup.contains(&(*x, *y));
         rep.class_if(!inside, "toy: point outside the prime-order subgroup (unchecked modes only)");
@@ -485,7 +486,7 @@ fn gt_item(rep: &mut Report, rng: &mut Rng, args: &Args, g: &dyn GAd) {
     let fi = g.info().clone();
     rep.config(&format!("PairingOutput<{}>", g.name()));
     let sp = format!("ser/gt/{}", g.name());
-    let n = args.pick(12, 160);
+    let n = bud(args, 12, 160);
     let cof = g.cofactor_exponent();
     for i in 0..n {
         // an element of the order-r subgroup: u^((p^k - 1)/r) (library pow, exponent from the oracle)
